@@ -261,7 +261,8 @@ def check(case, ctx):
             except ProvException:
                 items.append(_it("unified_raises_after_harmless_edit"))
         before = snapshot(d)
-        eb = dict(expected2[1]) if not (must2 or may2 or discard2) else eb
+        # the edit is in the model whatever the verdict on the second document-level call was
+        eb = dict(expected2[1])
     # ProvBundle.unified() of every bundle
     if not items:
         for bun in d.bundles:
